@@ -73,8 +73,8 @@ Proof.
   - unfold uuid4_format in H. apply andb_true_iff in H as [Hl Hc]. apply Nat.eqb_eq in Hl. split.
     + intros ->. discriminate.
     + apply ascii_utf8. apply (combine_snd_forall _ (fun ic => uuid4_char (fst ic) (snd ic)) (fun a b => uuid4_char_ascii a b) (seq 0 36) s); auto.
-  - unfold shortuuid_format in H. apply andb_true_iff in H as [Hl Hc]. apply Nat.eqb_eq in Hl. split.
-    + intros ->. discriminate.
+  - unfold shortuuid_format in H. apply andb_true_iff in H as [Hl Hc]. apply andb_true_iff in Hl as [Hl _]. apply Nat.leb_le in Hl. split.
+    + intros ->. simpl in Hl. inversion Hl.
     + apply ascii_utf8. eapply forallb_impl; [|exact Hc]. intros c Hx. unfold base57_char in Hx. range_lt.
   - unfold ulid_format in H. apply andb_true_iff in H as [H _]. apply andb_true_iff in H as [Hl Hc].
     apply Nat.eqb_eq in Hl. split.
